@@ -1,16 +1,20 @@
 """C07 - coupled total derivatives satisfy the implicit-function equations.
 
 specs/CoupledDeriv.tla (+ specs/Mat.tla) enumerates coupled linear systems with integer partial
-Jacobians and a unimodular residual Jacobian, computes the total derivatives twice (closed form /
-code-shaped assembly) and TLC checks the clauses of the property on every request subset, mode and
-request history.  The printed instances and cases are replayed on real gemseo MDAs
+Jacobians whose residual Jacobian has determinant +-1 (integer total derivatives) or +-2, +-4 (dyadic
+total derivatives, carried exactly as numerators over a denominator), one discipline possibly in
+residual form (state variable defined by a residual), computes the total derivatives twice (closed
+form / code-shaped assembly) and TLC checks the clauses of the property on every request subset, mode
+and request history.  The printed instances and cases are replayed on real gemseo MDAs
 (``linearize`` and ``JacobianAssembly.total_derivatives``); every returned block must equal the block
 computed by the specification (1e-9), shapes included, for every MDA class / matrix type / LU option /
-linear solver / Jacobian representation sampled.
+linear solver sampled, the partial Jacobians being returned in the representation enumerated by the
+specification with the case (float64 / int64 arrays or CSR matrices, operators, one per block).
 
-The specification also carries the selection rules of the code *as read* ("asread", "r3"): they
-predict where the present code raises or returns a wrong block; a disagreement of the implementation
-is reported with the prediction in its signature, so that known findings are matched by root cause.
+The specification also carries the selection rules of the code *as read* ("asread", "r3") and *as it
+is* ("asis"): they predict where the code raises or returns a wrong block; a disagreement of the
+implementation is reported with the prediction in its signature, so that known findings are matched
+by root cause.
 """
 from __future__ import annotations
 
@@ -22,9 +26,11 @@ import re
 from ..core import Check, MachineryError, main, run_tlc
 from . import c07_replay as rp
 
-GROUPS = [["pair", "self", "solo", "tailx"], ["tail", "head"], ["cycle3", "seq", "mid"]]
-ORACLE_INVS = ["IFT", "NeumannEqInverse", "AssembledIsClosedForm", "SubsystemUnimodular", "DirectEqAdjoint",
-               "SubsetIndependence", "StructuralZeros", "Shapes", "CacheCoherent", "NoRaise"]
+GROUPS = [["pair", "self", "solo", "tailx"], ["tail", "head"], ["cycle3", "seq", "mid"], ["rpair", "rtail", "rweak"]]
+RESIDUAL_GROUP = 3      # the topologies with a discipline in residual form
+ORACLE_INVS = ["IFT", "NeumannEqInverse", "AssembledIsClosedForm", "SubsystemRegular", "DirectEqAdjoint",
+               "SubsetIndependence", "StructuralZeros", "Shapes", "CacheCoherent", "NoRaise", "RepChosen"]
+SENS_CLASSES = ("dydx", "adjoint", "result")     # fields of Sensitive in CoupledDeriv.tla
 SOLVERS = ["DEFAULT", "LGMRES", "GMRES", "GCROT"]
 OTHER_SOLVERS = ["BICG", "BICGSTAB", "TFQMR", "CGS"]
 
@@ -33,12 +39,20 @@ def tla_set(xs):
     return "{" + ", ".join(('"%s"' % x) if isinstance(x, str) else str(x) for x in xs) + "}"
 
 
+ALL_REPS = ["dense_f64", "dense_i64", "sparse_f64", "sparse_i64", "operator", "mixed"]
+DETS = [1, 2, 4]
+
+
 def cfg(topos, profiles, choices, seeds, rules, maxhist, reqmod, emit, invs, pre=("fresh", "newton", "newtonall"),
-        adjmod=4):
-    s = ("CONSTANTS\n Topos = %s\n Profiles = %s\n Choices = %s\n Seeds = %s\n RuleSets = %s\n PreSets = %s\n MaxHist = %d\n"
-         " ReqMod = %d\n ReqRes = {0}\n AdjMod = %d\n Emit = %s\nSPECIFICATION Spec\nCHECK_DEADLOCK FALSE\n"
-         % (tla_set(topos), tla_set(profiles), tla_set(choices), tla_set(seeds), tla_set(rules), tla_set(pre), maxhist,
-            reqmod, adjmod, "TRUE" if emit else "FALSE"))
+        adjmod=4, dychoices=(), keep=(), reps=("dense_f64",), repmod=1, sensmod=0):
+    """dychoices=(): only instances with a unimodular residual Jacobian (every total derivative an integer)."""
+    s = ("CONSTANTS\n Topos = %s\n Profiles = %s\n Choices = %s\n DyChoices = %s\n Dets = %s\n Keep = %s\n"
+         " Seeds = %s\n RuleSets = %s\n PreSets = %s\n MaxHist = %d\n"
+         " ReqMod = %d\n ReqRes = {0}\n AdjMod = %d\n Reps = %s\n RepMod = %d\n SensMod = %d\n Emit = %s\n"
+         "SPECIFICATION Spec\nCHECK_DEADLOCK FALSE\n"
+         % (tla_set(topos), tla_set(profiles), tla_set(choices), tla_set(dychoices), tla_set(DETS), tla_set(keep),
+            tla_set(seeds), tla_set(rules), tla_set(pre), maxhist,
+            reqmod, adjmod, tla_set(reps), repmod, sensmod, "TRUE" if emit else "FALSE"))
     for i in invs:
         s += f"INVARIANT {i}\n"
     if emit:
@@ -48,19 +62,26 @@ def cfg(topos, profiles, choices, seeds, rules, maxhist, reqmod, emit, invs, pre
 
 def tlc_many(ck: Check, jobs, par=3):
     """jobs: list of dict(tag, cfg, workers, timeout, expect_ok, count).  Runs TLC concurrently, each in
-    its own sub-directory of ck.work (ck.tlc shares one cfg file per module), with ck.tlc's bookkeeping."""
+    its own sub-directory of ck.work (ck.tlc shares one cfg file per module), with ck.tlc's bookkeeping.
+
+    TLC's -coverage is NOT used: it switches off the caching of LET-bound values, and the nested exact
+    inverses of this specification are then re-evaluated at every use (the 5 s run of the initial states
+    does not finish in 15 min).  The specification has one action, Next; that it was taken is read from
+    the counts TLC prints: states generated beyond the initial ones."""
     def one(j):
         try:
             return j, run_tlc("CoupledDeriv", j["cfg"], ck.work / j["tag"], workers=j.get("workers", 2),
-                              timeout=j.get("timeout", 600), coverage=j.get("coverage", True))
+                              timeout=j.get("timeout", 600), coverage=False)
         except MachineryError as ex:
             raise MachineryError(f"[{j['tag']}] {ex}") from None
     out = {}
     with cf.ThreadPoolExecutor(max_workers=par) as ex:
         for j, r in ex.map(one, jobs):
+            m = re.search(r"Finished computing initial states: (\d+) distinct state", r.out)
+            n_init = int(m.group(1)) if m else 0
             ck.tlc_runs.append({"module": "CoupledDeriv", "tag": j["tag"], "distinct": r.distinct,
                                 "generated": r.generated, "depth": r.depth, "wall_s": round(r.wall, 2),
-                                "coverage": {k: v[0] for k, v in r.coverage.items()}})
+                                "coverage": {"Init": n_init, "Next": max(0, r.generated - n_init)}})
             if r.error or (r.rc != 0 and not r.violated):
                 raise MachineryError(f"TLC failed on CoupledDeriv[{j['tag']}]: {r.error or r.out[-2000:]}")
             if j.get("expect_ok", True) and r.violated:
@@ -68,27 +89,32 @@ def tlc_many(ck: Check, jobs, par=3):
             if j.get("count", True):
                 ck.states += r.distinct
                 ck.transitions += r.generated
-            if j.get("coverage", True) and j.get("need_next", True) and r.coverage.get("Next", [0, 0])[0] == 0:
+            if j.get("expect_ok", True) and j.get("need_next", True) and (m is None or r.generated <= n_init):
                 raise MachineryError(f"vacuity: action Next of CoupledDeriv[{j['tag']}] never taken")
             out[j["tag"]] = r
     return out
 
 
 def parse_records(results):
-    insts, cases = {}, {}
+    """INST / CASE records -> instances, cases (the result does not depend on the representation of the
+    Jacobians: one entry per (instance, rules, pre, history)), representations enumerated per history."""
+    insts, cases, reps_of = {}, {}, {}
     for r in results:
         for v in r.printed():
             if not (isinstance(v, tuple) and v):
                 continue
             if v[0] == "INST":
-                _, key, rules, pre, S, size, J, nilp, nodes, merged, cfm = v
+                _, key, rules, pre, S, size, J, nilp, nodes, merged, cfm, res, mixed, code = v
                 insts[key] = {"key": key, "S": S, "size": size, "J": J, "nilp": nilp,
                               "weak": nodes != merged, "several_groups": nodes == merged and len(nodes) > 1,
-                              "cf": cfm}
+                              "cf": cfm, "res": tuple(sorted(res)), "mixed": mixed, "code": code}
             elif v[0] == "CASE":
-                _, key, rules, pre, hist, err, mcs, tot, exact = v
-                cases[(key, rules, pre, hist)] = ("+".join(sorted(err)) or "none", mcs, tot, exact)
-    return insts, cases
+                _, key, rules, pre, hist, err, mcs, tot, exact, rep, sens = v
+                c = ("+".join(sorted(err)) or "none", mcs, tot, exact, sens)
+                if cases.setdefault((key, rules, pre, hist), c) != c:
+                    raise MachineryError(f"the specification's result depends on the representation: {key} {hist}")
+                reps_of.setdefault((key, hist), set()).add(rep)
+    return insts, cases, reps_of
 
 
 NEWTON = {"MDANewtonRaphson", "MDAGSNewton"}
@@ -119,14 +145,18 @@ def pre_of(conf, inst):
     return "newton" if conf.get("inner") == "MDANewtonRaphson" else "fresh"
 
 
-def sample_conf(rng, inst, api, k):
+def sample_conf(rng, inst, api, k, rep):
     cls, inner = rng.choice(mda_classes(inst))
     if api == "assembly" and k % 2 == 0:
         cls, inner = ("MDAGaussSeidel", None) if inst["nilp"] else ("MDAChain", "MDANewtonRaphson")
-    conf = {"api": api, "cls": cls, "inner": inner, "jac": rng.choice(["dense", "dense", "sparse", "operator"]),
-            "rev": rng.random() < 0.5}
-    if cls == "MDAChain" and api == "mda" and rng.random() < 0.3:
-        # the Jacobian of the MDAChain composed by the chain rule from its inner MDAs
+    # "jac": the representation of the partial Jacobians, enumerated by the specification with the case
+    conf = {"api": api, "cls": cls, "inner": inner, "jac": rep, "rev": rng.random() < 0.5}
+    if (cls == "MDAChain" and api == "mda" and rng.random() < 0.3 and not inst["res"]
+            and rep in ("dense_f64", "sparse_f64", "operator")):
+        # the Jacobian of the MDAChain composed by the chain rule from its inner MDAs (another code
+        # path, the one of MDOChain: not for residual-form disciplines, whose Jacobians are partial ones
+        # at fixed state, nor with integer-typed Jacobians, which MDOChain.reverse_chain_rule accumulates
+        # in place - UFuncTypeError, reported to the check of the chain rule, C09)
         conf["chain_linearize"] = True
     if rng.random() < 0.25:
         conf.update(matrix_type="matrix", lu=True, solver="DEFAULT")
@@ -140,67 +170,129 @@ def prediction(cases, key, rules, pre, h, expected):
     c = cases.get((key, rules, pre, h))
     if c is None:
         return "n/a"
-    err, _, tot, exact = c
+    err, _, tot, exact = c[:4]
     if err != "none":
         return err
     if not exact:
         return "other_system"   # the code answers, from a residual system the specification cannot invert
     ri, ro, _ = h[-1]
-    if any(tot[f][x] != expected[f][x] for f in ro for x in ri):
+    if not rp.same_blocks(tot, expected, ri, ro):
         return "wrong"
     return "none"
+
+
+def select(insts, rng, topos, n_uni, n_dy):
+    """A sample of the instances enumerated by TLC: per (topology, profile) at most n_uni with a unimodular
+    residual Jacobian and n_dy with dyadic total derivatives -> the constant Keep of the next runs (the
+    codes of the instances, computed and printed by TLC)."""
+    by = {}
+    for key, inst in insts.items():
+        if key[0] in topos:
+            by.setdefault((key[0], key[1], inst["cf"]["d"] > 1), set()).add(inst["code"])
+    keep = []
+    for (t, p, dyadic), ks in sorted(by.items()):
+        ks = sorted(ks)
+        n = n_dy if dyadic else n_uni
+        keep += ks if n is None or n >= len(ks) else rng.sample(ks, n)
+    return keep
 
 
 def run(ck: Check):
     rng = random.Random(ck.seed)
     th = ck.thorough
     tmo = 1700 if th else 900
-    # ------------------------------------------------------------------ 1. model checking (no printing)
+    classic = [t for g in GROUPS[:RESIDUAL_GROUP] for t in g]
+    residual = GROUPS[RESIDUAL_GROUP]
+    alltopos = classic + residual
+    dych = list(range(1, 7))
+    # ------------------------------------------------------------------ 0. the instances (initial states)
     profiles = sorted(rng.sample(range(512), 3 if th else 2))
     choices = sorted(rng.sample(range(1, 7), 4 if th else 2))
     seeds = [rng.randrange(1, 50)]
-    jobs = []
-    alltopos = [t for g in GROUPS for t in g]
-    if th:
-        for g, topos in enumerate(GROUPS):
-            # every request subset and mode of every instance, oracle rules
-            jobs.append({"tag": f"mc{g}", "workers": 4, "timeout": tmo,
-                         "cfg": cfg(topos, profiles, choices, seeds, ["repaired"], 1, 1, False,
-                                    ORACLE_INVS + ["InverseSound"], pre=("fresh",))})
-            # the rules as read on fresh disciplines never return a wrong block (they raise)
-            jobs.append({"tag": f"ma{g}", "workers": 4, "timeout": tmo,
-                         "cfg": cfg(topos, profiles[:2], choices, seeds, ["asread", "r3"], 1, 2, False,
-                                    ["AsReadFreshIsRight", "CacheCoherent"], pre=("fresh",))})
-            # histories of two requests on the same assembly (cache of the minimal couplings,
-            # accumulated differentiated inputs/outputs), disciplines prepared by a Newton MDA
-            jobs.append({"tag": f"mh{g}", "workers": 4, "timeout": tmo,
-                         "cfg": cfg(topos, profiles[:2], choices[:2], seeds, ["repaired"], 2, 10, False,
-                                    ORACLE_INVS, pre=("newton",))})
-    else:
-        # quick: one run over all topologies, one request in eight per instance (which ones depends on
-        # the instance); the two-request histories are model-checked in the emit runs below
-        jobs.append({"tag": "mc", "workers": 4, "timeout": tmo,
-                     "cfg": cfg(alltopos, profiles, choices, seeds, ["repaired", "asread"], 1, 8, False,
-                                ORACLE_INVS + ["AsReadFreshIsRight"], pre=("fresh",))})
-        jobs.append({"tag": "inv", "workers": 1, "timeout": tmo,
-                     "cfg": cfg(alltopos, profiles[:1], choices, seeds, ["repaired"], 0, 1, False,
-                                ["IFT", "InverseSound", "NeumannEqInverse"], pre=("fresh",)), "need_next": False})
-    # ------------------------------------------------------------------ 2. records for the replay
     eprofiles = sorted(rng.sample(range(512), 2 if th else 1))
     echoices = sorted(rng.sample(range(1, 7), 3 if th else 2))
     eseeds = [rng.randrange(1, 50)]
-    for g, topos in enumerate(GROUPS):
-        jobs.append({"tag": f"emit{g}", "workers": 4 if th else 2, "timeout": tmo, "count": not th, "coverage": False,
-                     "cfg": cfg(topos, eprofiles, echoices, eseeds, ["repaired", "asread", "r3"], 2,
-                                36 if th else 48, True, ORACLE_INVS + ["AsReadFreshIsRight"])})
+    res = tlc_many(ck, [
+        {"tag": "enum-mc", "workers": 2, "timeout": tmo, "need_next": False, "count": False,
+         "cfg": cfg(alltopos, profiles, choices, seeds, ["repaired"], 0, 1, True, [], pre=("fresh",), dychoices=dych)},
+        {"tag": "enum-emit", "workers": 2, "timeout": tmo, "need_next": False, "count": False,
+         "cfg": cfg(alltopos, eprofiles, echoices, eseeds, ["repaired"], 0, 1, True, [], pre=("fresh",),
+                    dychoices=dych)}], par=2)
+    minsts, _, _ = parse_records([res["enum-mc"]])
+    einsts, _, _ = parse_records([res["enum-emit"]])
+    # (a topology may have no admissible instance for the profile and the choices of the run; the groups
+    # without any are skipped, what was bound to the implementation is checked at the end)
+    has = lambda found, topos: any(k[0] in topos for k in found)
+    if not has(minsts, residual) or not has(einsts, residual):
+        raise MachineryError("vacuity: no admissible instance with a discipline in residual form")
+    # every instance with integer derivatives of the classic topologies, a sample of the others
+    keep_mc = (select(minsts, rng, classic, None, 2 if th else 1)
+               + select(minsts, rng, residual, 4 if th else 2, 2 if th else 1))
+    keep_emit = (select(einsts, rng, classic, 6 if th else 3, 3 if th else 1)
+                 + select(einsts, rng, residual, 4 if th else 2, 2 if th else 1))
+    topo_of = {i["code"]: k[0] for found in (minsts, einsts) for k, i in found.items()}
+    keep_of = lambda keep, topos: [c for c in keep if topo_of[c] in topos]
+    # ------------------------------------------------------------------ 1. model checking (no printing)
+    jobs = []
+    if th:
+        for g, topos in enumerate(GROUPS):
+            if not has(minsts, topos):
+                continue
+            kw = {"dychoices": dych, "keep": keep_of(keep_mc, topos)}
+            # every request subset and mode of every instance, oracle rules
+            jobs.append({"tag": f"mc{g}", "workers": 4, "timeout": tmo,
+                         "cfg": cfg(topos, profiles, choices, seeds, ["repaired"], 1, 1 if g != RESIDUAL_GROUP else 2,
+                                    False, ORACLE_INVS + ["InverseSound"], pre=("fresh",), **kw)})
+            if g != RESIDUAL_GROUP:
+                # the rules as read on fresh disciplines never return a wrong block (they raise)
+                jobs.append({"tag": f"ma{g}", "workers": 4, "timeout": tmo,
+                             "cfg": cfg(topos, profiles[:2], choices, seeds, ["asread", "r3"], 1, 2, False,
+                                        ["AsReadFreshIsRight", "CacheCoherent"], pre=("fresh",), **kw)})
+            # histories of two requests on the same assembly (cache of the minimal couplings,
+            # accumulated differentiated inputs/outputs), disciplines prepared by a Newton MDA
+            jobs.append({"tag": f"mh{g}", "workers": 4, "timeout": tmo,
+                         "cfg": cfg(topos, profiles[:2], choices, seeds, ["repaired"], 2,
+                                    10 if g != RESIDUAL_GROUP else 36, False, ORACLE_INVS, pre=("newton",), **kw)})
+    else:
+        # quick: one run over the classic topologies, one over the residual-form ones, one request in eight
+        # per instance (which ones depends on the instance); the two-request histories are model-checked
+        # in the emit runs below
+        jobs.append({"tag": "mc", "workers": 4, "timeout": tmo,
+                     "cfg": cfg(classic, profiles, choices, seeds, ["repaired", "asread"], 1, 8, False,
+                                ORACLE_INVS + ["AsReadFreshIsRight"], pre=("fresh",), dychoices=dych,
+                                keep=keep_of(keep_mc, classic))})
+        jobs.append({"tag": "mcr", "workers": 2, "timeout": tmo,
+                     "cfg": cfg(residual, profiles, choices, seeds, ["repaired"], 1, 8, False,
+                                ORACLE_INVS, pre=("fresh",), dychoices=dych, keep=keep_of(keep_mc, residual))})
+        jobs.append({"tag": "inv", "workers": 1, "timeout": tmo,
+                     "cfg": cfg(alltopos, profiles[:1], choices, seeds, ["repaired"], 0, 1, False,
+                                ["IFT", "InverseSound", "NeumannEqInverse"], pre=("fresh",), dychoices=dych,
+                                keep=keep_mc),
+                     "need_next": False})
+    # ------------------------------------------------------------------ 2. records for the replay
+    emitted = [g for g, topos in enumerate(GROUPS) if has(einsts, topos)]
+    for g in emitted:
+        topos = GROUPS[g]
+        rg = g == RESIDUAL_GROUP
+        jobs.append({"tag": f"emit{g}", "workers": 4 if th else 2, "timeout": tmo, "count": not th,
+                     "cfg": cfg(topos, eprofiles, echoices, eseeds,
+                                ["repaired", "asis"] if rg else ["repaired", "asread", "r3"], 2,
+                                (72 if th else 96) if rg else (36 if th else 48), True,
+                                ORACLE_INVS + ["AsReadFreshIsRight"], adjmod=8 if rg else 4, dychoices=dych,
+                                keep=keep_of(keep_emit, topos), reps=ALL_REPS, repmod=len(ALL_REPS),
+                                sensmod=2)})
     # ------------------------------------------------------------------ 3. the rules as read are refuted by TLC
     refute = [("asread-raise", ["tailx"], "asread", "fresh", 1, 1, "AsReadNoRaise"),
               ("r3-raise", ["tailx", "head"], "r3", "fresh", 1, 1, "AsReadNoRaise"),
               ("asread-value-history", ["seq"], "asread", "fresh", 2, 20, "AsReadValues"),
-              ("asread-value-newton", ["seq"], "asread", "newton", 1, 1, "AsReadValues")]
+              ("asread-value-newton", ["seq"], "asread", "newton", 1, 1, "AsReadValues"),
+              # the code as it is on a discipline in residual form: a function that reads the state gets a
+              # wrong block; the residual row of a discipline that is not involved makes the system singular
+              ("asis-value", ["rpair"], "asis", "fresh", 1, 1, "AsIsValues"),
+              ("asis-singular", ["rweak"], "asis", "fresh", 1, 1, "AsIsNoRaise")]
     for tag, topos, rl, pr, mh, rm, inv in refute:
         jobs.append({"tag": tag, "workers": 1, "timeout": 900, "expect_ok": False, "count": False,
-                     "coverage": False, "cfg": cfg(topos, [5], [1, 2], [1], [rl], mh, rm, False, [inv], pre=(pr,))})
+                     "cfg": cfg(topos, [5], [1, 2], [1], [rl], mh, rm, False, [inv], pre=(pr,))})
     res = tlc_many(ck, jobs, par=4)
     for tag, _, _, _, _, _, inv in refute:
         r = res[tag]
@@ -210,11 +302,11 @@ def run(ck: Check):
         m = re.findall(r"/\\ hist = (<<.*?>>)\n/\\", r.out, re.S)
         e = re.findall(r"/\\ err = (\{.*?\})", r.out)
         ck.extra["counterexample_" + tag] = {"hist": " ".join(m[-1].split()) if m else None, "err": e[-1] if e else None}
-    insts, cases = parse_records([res[f"emit{g}"] for g in range(len(GROUPS))])
+    insts, cases, reps_of = parse_records([res[f"emit{g}"] for g in emitted])
     # one record per distinct state (PrintT is atomic; several workers only change the order)
-    n_rec = sum(1 for g in range(len(GROUPS)) for v in res[f"emit{g}"].printed()
+    n_rec = sum(1 for g in emitted for v in res[f"emit{g}"].printed()
                 if isinstance(v, tuple) and v and v[0] in ("INST", "CASE"))
-    n_states = sum(res[f"emit{g}"].distinct for g in range(len(GROUPS)))
+    n_states = sum(res[f"emit{g}"].distinct for g in emitted)
     if n_rec != n_states:
         raise MachineryError(f"{n_rec} records parsed for {n_states} distinct states of the emit runs")
     if not insts or not cases:
@@ -224,24 +316,53 @@ def run(ck: Check):
     hists = sorted({(k[0], k[3]) for k in cases if k[1] == "repaired"}, key=repr)
     singles = [k for k in hists if len(k[1]) == 1]
     pairs = [k for k in hists if len(k[1]) == 2]
-    n_single = len(singles) if th else min(len(singles), 360)
+    n_single = len(singles) if th else min(len(singles), 380)
     n_pairs = min(len(pairs), 2400 if th else 240)
     per_case = 3 if th else 1
+
+    def as_read(c):
+        """The prediction of the rules as first read (classic systems) / of the code as it is (residual
+        form) for a history, on fresh disciplines; "n/a" when TLC did not enumerate it."""
+        rules = "asis" if insts[c[0]]["res"] else "asread"
+        return cases.get((c[0], rules, "fresh", c[1]), ("n/a",))[0]
 
     def stratified(pool, n):
         """Three quarters of the sample among the histories on which the code as read is predicted
         to answer (they exercise the numerical path), the rest among the predicted failures."""
         if n >= len(pool):
             return list(pool)
-        good = [c for c in pool if cases[(c[0], "asread", "fresh", c[1])][0] == "none"]
-        rest = [c for c in pool if cases[(c[0], "asread", "fresh", c[1])][0] != "none"]
+        good = [c for c in pool if as_read(c) == "none"]
+        rest = [c for c in pool if as_read(c) != "none"]
         ng = min(len(good), max(n - len(rest), (3 * n) // 4))
         return rng.sample(good, ng) + rng.sample(rest, min(len(rest), n - ng))
 
+    def sens(c):
+        return cases[(c[0], "repaired", "fresh", c[1])][4] if (c[0], "repaired", "fresh", c[1]) in cases else {}
+
+    # the first requests on which a rounding to integers in the solve path would be visible (classes
+    # dydx / adjoint / result of the specification): a sample of each class, in each representation TLC
+    # enumerated for them, with the iterative solvers and with the LU factorization
+    visible = []
+    for cl in SENS_CLASSES:
+        pool = [c for c in singles if sens(c).get(cl)]
+        visible += rng.sample(pool, min(len(pool), 60 if th else 14))
+    for (key, hist) in sorted(set(visible), key=repr):
+        inst = insts[key]
+        for k, rep in enumerate(sorted(reps_of[(key, hist)])):
+            for lu in (False, True):
+                conf = sample_conf(rng, inst, "mda" if (k + lu) % 2 else "assembly", k, rep)
+                conf.pop("chain_linearize", None)
+                if lu:
+                    conf.update(matrix_type="matrix", lu=True, solver="DEFAULT")
+                else:
+                    conf.update(matrix_type=rng.choice(["matrix", "linear_operator"]), lu=False,
+                                solver=rng.choice(SOLVERS))
+                todo.append((key, hist, conf))
     for (key, hist) in stratified(singles, n_single):
         inst = insts[key]
         for k in range(per_case + 1):
-            todo.append((key, hist, sample_conf(rng, inst, "mda" if k else "assembly", k)))
+            todo.append((key, hist, sample_conf(rng, inst, "mda" if k else "assembly", k,
+                                                rng.choice(sorted(reps_of[(key, hist)])))))
     # first the histories whose two requests share exactly one of (variables, functions): a cache of
     # the minimal couplings keyed by half of the request would show there
     adjacent = [c for c in pairs if (c[1][0][0] == c[1][1][0]) != (c[1][0][1] == c[1][1][1])]
@@ -253,18 +374,19 @@ def run(ck: Check):
         (i1, o1, _), (i2, o2, _) = hist
         apis = ["assembly"] + (["mda"] if (i1 <= i2 and o1 <= o2) else [])
         for k, api in enumerate(apis * (2 if th else 1)):
-            todo.append((key, hist, sample_conf(rng, inst, api, k + 1)))
+            todo.append((key, hist, sample_conf(rng, inst, api, k + 1, rng.choice(sorted(reps_of[(key, hist)])))))
     # every solver x matrix type x mode at least once on plain cases (informational for the solvers
     # that are not in SOLVERS: Krylov methods that break down or stop early on these small systems)
     sweep = []
-    plain = [k for k in singles if cases[(k[0], "asread", "fresh", k[1])][0] == "none"
-             and cases[(k[0], "asread", "newton", k[1])][0] == "none"]
+    plain = [k for k in singles if not insts[k[0]]["res"]
+             and cases.get((k[0], "asread", "fresh", k[1]), ("n/a",))[0] == "none"
+             and cases.get((k[0], "asread", "newton", k[1]), ("n/a",))[0] == "none"]
     for (key, hist) in rng.sample(plain, min(len(plain), 24 if th else 6)):
         inst = insts[key]
         for s in SOLVERS + OTHER_SOLVERS:
             for mt in ("matrix", "linear_operator"):
                 cls, inner = ("MDAGaussSeidel", None) if inst["nilp"] else ("MDAChain", "MDANewtonRaphson")
-                sweep.append((key, hist, {"api": "mda", "cls": cls, "inner": inner, "jac": "dense",
+                sweep.append((key, hist, {"api": "mda", "cls": cls, "inner": inner, "jac": "dense_f64",
                                           "matrix_type": mt, "lu": False, "solver": s}))
     args = [(insts[key], hist, conf) for key, hist, conf in todo + sweep]
     with mp.get_context("fork").Pool(8) as pool:
@@ -272,12 +394,15 @@ def run(ck: Check):
     n_blocks = 0
     stats = {}
     solver_stats = {}
+    rep_stats = {}
+    n_visible = {(cl, lu): 0 for cl in SENS_CLASSES for lu in ("iterative", "lu")}
+    n_residual = 0
     misses = []
     for n, ((key, hist, conf), steps) in enumerate(zip(todo + sweep, outs)):
         inst = insts[key]
         pre = pre_of(conf, inst)
         informational = conf["solver"] in OTHER_SOLVERS
-        case = {"instance": {"key": key, "S": inst["S"], "size": inst["size"], "J": inst["J"]},
+        case = {"instance": {"key": key, "S": inst["S"], "size": inst["size"], "J": inst["J"], "res": inst["res"]},
                 "history": hist, "config": conf, "pre": pre}
         replayed = False
         for k, step in enumerate(steps):
@@ -286,15 +411,20 @@ def run(ck: Check):
                                          "cls": conf["cls"]}, dict(case, error=step))
                 break
             h = hist[:k + 1]
-            exp = cases[(key, "repaired", pre, h)][2]
+            exp, sn = cases[(key, "repaired", pre, h)][2], cases[(key, "repaired", pre, h)][4]
             ri, ro, mode = h[-1]
             if conf.get("chain_linearize"):
                 # another code path (MDOChain chain rule over the inner MDAs): no prediction, strict
-                pa = p3 = "chain_linearize"
+                pa = p3 = pi = "chain_linearize"
+            elif inst["res"]:
+                # the rules as first read are those of a code that is no longer there
+                pa = p3 = "n/a"
+                pi = prediction(cases, key, "asis", pre, h, exp)
             else:
                 pa = prediction(cases, key, "asread", pre, h, exp)
                 p3 = prediction(cases, key, "r3", pre, h, exp)
-            sig = {"api": conf["api"], "asread": pa, "r3": p3}
+                pi = "none"     # the code as it is follows the repaired rules on these systems
+            sig = {"api": conf["api"], "asread": pa, "r3": p3, "asis": pi}
             if "exc" in step:
                 outcome = "raised"
             else:
@@ -307,12 +437,20 @@ def run(ck: Check):
             if n >= len(todo):
                 st = solver_stats.setdefault(conf["solver"], {"ok": 0, "raised": 0, "wrong": 0})
                 st[outcome] += 1
-            st = stats.setdefault(f"{pre}:{pa}/{p3}", {"ok": 0, "raised": 0, "wrong": 0})
+            st = stats.setdefault(f"{pre}:{pa}/{p3}/{pi}", {"ok": 0, "raised": 0, "wrong": 0})
             st[outcome] += 1
-            if outcome == "ok" and pa not in ("none", "other_system", "chain_linearize") and len(misses) < 5:
+            st = rep_stats.setdefault(conf["jac"], {"ok": 0, "raised": 0, "wrong": 0})
+            st[outcome] += 1
+            # what was bound to the implementation (whatever the outcome): vacuity
+            n_residual += bool(inst["res"])
+            if k == 0 and conf["jac"] in ("dense_i64", "sparse_i64"):
+                for cl in SENS_CLASSES:
+                    n_visible[(cl, "lu" if conf["lu"] else "iterative")] += bool(sn[cl])
+            if outcome == "ok" and len(misses) < 5 and (pa not in ("none", "other_system", "chain_linearize", "n/a")
+                                                        or pi not in ("none", "chain_linearize")):
                 # the rules as read predicted a failure that the implementation does not show
                 # (expected once the repairs are applied to gemseo)
-                misses.append({"instance": key, "history": h, "config": conf, "asread": pa, "r3": p3})
+                misses.append({"instance": key, "history": h, "config": conf, "asread": pa, "r3": p3, "asis": pi})
             if outcome == "raised":
                 ck.violation("NoRaise", dict(sig, exception=step["exc"]),
                              dict(case, step=k, request=h[-1], error=step, expected=exp))
@@ -324,21 +462,37 @@ def run(ck: Check):
                 replayed = True
         if replayed:
             ck.traces += 1
+    if not ck.violations and (n_visible[("dydx", "iterative")] == 0 or n_residual == 0):
+        raise MachineryError(f"vacuity: {n_visible} replayed requests on which a rounding to integers would be "
+                             f"visible, {n_residual} on systems with a discipline in residual form")
     for (key, hist) in singles[:3] + pairs[:3]:
         ck.sample({"instance": key, "history": hist, "expected": cases[(key, "repaired", "fresh", hist)][2],
-                   "asread": cases[(key, "asread", "fresh", hist)][0], "r3": cases[(key, "r3", "fresh", hist)][0]})
+                   "representations": sorted(reps_of[(key, hist)]),
+                   "asread": cases.get((key, "asread", "fresh", hist), ("n/a",))[0],
+                   "r3": cases.get((key, "r3", "fresh", hist), ("n/a",))[0],
+                   "asis": cases.get((key, "asis", "fresh", hist), ("n/a",))[0]})
     ck.extra["instances_replayed"] = len({k for k, _, _ in todo})
+    ck.extra["instances_replayed_with_dyadic_derivatives"] = len({k for k, _, _ in todo if insts[k]["cf"]["d"] > 1})
+    ck.extra["instances_replayed_with_residual_form_discipline"] = len({k for k, _, _ in todo if insts[k]["res"]})
     ck.extra["histories_replayed"] = len(todo)
     ck.extra["blocks_equal_to_spec"] = n_blocks
-    ck.extra["outcome_by_prediction(pre:asread/r3)"] = dict(sorted(stats.items()))
+    ck.extra["requests_with_integer_typed_jacobians_where_a_rounding_would_show(class,solve)"] = {
+        f"{cl}/{lu}": n for (cl, lu), n in sorted(n_visible.items())}
+    ck.extra["requests_on_residual_form_systems"] = n_residual
+    ck.extra["outcome_by_representation"] = dict(sorted(rep_stats.items()))
+    ck.extra["outcome_by_prediction(pre:asread/r3/asis)"] = dict(sorted(stats.items()))
     ck.extra["solver_sweep"] = dict(sorted(solver_stats.items()))
     ck.extra["predicted_failures_not_observed(examples)"] = misses
     ck.extra["constants"] = {"profiles": profiles, "choices": choices, "seeds": seeds, "emit_profiles": eprofiles,
-                             "emit_choices": echoices, "emit_seeds": eseeds}
+                             "emit_choices": echoices, "emit_seeds": eseeds,
+                             "instances_kept(mc)": len(keep_mc), "instances_kept(emit)": len(keep_emit)}
     ck.exhaustive = False
     ck.assumptions += [
-        "exact slice: linear disciplines with constant integer Jacobians (entries -2..2), residual Jacobian unimodular; "
-        "conditioning and iterative-solver tolerances on hard systems are not covered",
+        "exact slice: linear disciplines with constant integer Jacobians (entries -2..2), |det| of the residual Jacobian "
+        "in {1, 2, 4} (integer or dyadic total derivatives); conditioning and iterative-solver tolerances on hard systems "
+        "are not covered",
+        "residual-form disciplines solve their own state equations (state_equations_are_solved=True), d r/d s unimodular; "
+        "chain_linearize (chain rule over the inner MDAs) is not bound on them",
         "fixed-point MDA classes are bound on the instances whose coupling operator is nilpotent; Newton-based ones on all",
         "blocks compared to 1e-9 (linear solves are not exact in floating point)",
         "linear solvers bound: " + ", ".join(SOLVERS) + "; " + ", ".join(OTHER_SOLVERS) + " break down or stop early on "
